@@ -16,6 +16,9 @@ OPS = {
     "decode.tokbatch": {}, "decode.csibatch": {}, "decode.splitlines": {},
     "decode.batch": {}, "decode.lines": {"res": True}, "decode.seq": {},
     "decode.roundtrip": {"res": True}, "proxy.run": {}, "proxy.live": {}, "proxy.facts": {},
+    # nested spans through the real Text.render / Style.__add__ (no model of Text.render: the expected
+    # per-character styles are computed in this file, independently of rich; checked by roundtrip_b)
+    "decode.nested": {"spec_only": True},
 }
 
 N_ATTR = 13
@@ -75,6 +78,90 @@ def rand_style(rng):
 def rand_text(rng, pool=None, maxlen=8):
     pool = pool or rng.choice([ASCII, ASCII, WIDE, ZERO, ASCII + WIDE + ZERO])
     return "".join(rng.choice(pool) for _ in range(rng.randint(0, maxlen)))
+
+
+ATTR_WORDS = ["bold", "dim", "italic", "underline", "blink", "blink2", "reverse", "conceal", "strike",
+              "underline2", "frame", "encircle", "overline"]
+
+
+def style_def(sty):
+    """style tree -> definition string for Style.parse (links without spaces)"""
+    col, bg, att, setw, link = sty
+    words = []
+    for i in range(N_ATTR):
+        if setw & (1 << i):
+            words.append(ATTR_WORDS[i] if att & (1 << i) else "not " + ATTR_WORDS[i])
+    if col:
+        words.append(t2s(col[0][0]))
+    if bg:
+        words.append("on " + t2s(bg[0][0]))
+    if link and link[0]:
+        words.append("link " + t2s(link[0]))
+    return " ".join(words) or "none"
+
+
+def combine_trees(styles):
+    """right-biased combination of style trees (what Style.combine must compute), done here"""
+    col, bg, att, setw, link = [], [], 0, 0, []
+    for s in styles:
+        if s[0]:
+            col = s[0]
+        if s[1]:
+            bg = s[1]
+        att = (att & ~s[3]) | (s[2] & s[3])
+        setw |= s[3]
+        if s[4] and s[4][0]:
+            link = s[4]
+    return [col, bg, att, setw, link]
+
+
+def rand_on_style(rng):
+    """a style that switches some attributes ON (plus maybe colours / link)"""
+    bits = rng.sample(range(N_ATTR), rng.randint(1, 4))
+    w = sum(1 << b for b in bits)
+    link = [s2t(rng.choice(["http://a", "https://example.org/x?y=1", "x"]))] if rng.random() < 0.2 else []
+    return [rand_color(rng) if rng.random() < 0.4 else [], rand_color(rng) if rng.random() < 0.3 else [], w, w, link]
+
+
+def rand_neg_style(rng, of):
+    """only negations, of attributes the outer style sets"""
+    on = [i for i in range(N_ATTR) if of[3] & (1 << i)] or [0]
+    bits = rng.sample(on, rng.randint(1, len(on)))
+    if rng.random() < 0.3:
+        bits.append(rng.randrange(N_ATTR))
+    return [[], [], 0, sum(1 << b for b in set(bits)), []]
+
+
+def rand_nested(rng):
+    """[warm, base?, plain, [[start, end, style], ...]]"""
+    plain = "\n".join(rand_text(rng, CLEAN, 8) or "xy" for _ in range(rng.choice([1, 1, 2])))
+    n = len(plain)
+    k = rng.random()
+    spans = []
+    if k < 0.45:       # base sets attributes, inner span(s) only negate them
+        base = [rand_on_style(rng)]
+        for _ in range(rng.choice([1, 1, 2])):
+            a = rng.randint(0, n)
+            spans.append([a, rng.randint(a, n), rand_neg_style(rng, base[0])])
+    elif k < 0.75:     # no base: the outer span is the left operand, the inner span negates
+        base = []
+        outer = rand_on_style(rng)
+        a = rng.randint(0, n // 2)
+        b = rng.randint(a, n)
+        spans.append([a, b, outer])
+        c = rng.randint(a, b)
+        spans.append([c, rng.randint(c, n), rand_neg_style(rng, outer)])
+        if rng.random() < 0.3:
+            spans.append([0, n, rand_style(rng)[:4] + [[]]])
+    else:              # anything on anything
+        base = [rand_style(rng)[:4] + [[]]] if rng.random() < 0.6 else []
+        for _ in range(rng.randint(1, 3)):
+            a = rng.randint(0, n)
+            sty = rand_style(rng)
+            if sty[4] and (not sty[4][0] or " " in t2s(sty[4][0])):
+                sty[4] = []
+            spans.append([a, rng.randint(a, n), sty])
+    return [rng.choice([0, 1, 1, 2]), base, s2t(plain), spans]
 
 
 def rand_runs(rng, clean=False):
@@ -261,6 +348,15 @@ def generate(rng, tier):
         cases.append(("decode.roundtrip", [0, rand_runs(rng)]))
     for _ in range(500 * k):
         cases.append(("decode.roundtrip", [1, rand_runs(rng, clean=True)]))
+    # nested spans through Text.render with cache-warm Style objects (warm 1: every style rendered alone
+    # once before the measured print; warm 2: the measured Text itself printed twice; 0: cold)
+    b = [[], [], 1, 1, []]
+    nb = [[], [], 0, 1, []]
+    for warm in (0, 1, 2):
+        cases.append(("decode.nested", [warm, [b], s2t("abcd"), [[1, 3, nb]]]))
+        cases.append(("decode.nested", [warm, [], s2t("abcd"), [[0, 4, b], [1, 3, nb]]]))
+    for _ in range(500 * k):
+        cases.append(("decode.nested", rand_nested(rng)))
     # a segment with an embedded newline printed with crop=False: the style stays open across the line
     # break and the decoder's state carries it (mode 2: one list of runs, texts may contain "\n")
     for _ in range(300 * k):
@@ -364,6 +460,8 @@ def model_case(op, arg):
         return op, [d8_fixed(), arg[1]]
     if op == "proxy.live":
         return op, [d8_fixed(), arg[0], arg[1]]
+    if op == "decode.nested":
+        return "proxy.facts", []
     return op, arg
 
 
@@ -461,6 +559,41 @@ def _console(width=100000):
                    _environ={}, width=width)
 
 
+def _nested(warm, base, plain, spans):
+    """Text(plain, style=base) with the given spans, every style obtained from Style.parse (lru cache: the
+    same Style objects every time), printed through a truecolor Console and decoded again.
+    warm 1: each style object is rendered alone once first (fills its _ansi memo);
+    warm 2: the whole Text is printed once before the measured print."""
+    from rich.ansi import AnsiDecoder
+    from rich.style import Style
+    from rich.text import Text
+    Style.parse.cache_clear()      # warm-ness is decided by `warm` alone, not by earlier cases of this process
+    objs = {}
+
+    def get(tree):
+        d = style_def(tree)
+        if d not in objs:
+            objs[d] = Style.parse(d)
+        assert Style.parse(d) is objs[d]       # the lru cache hands back the same object
+        return objs[d]
+
+    def build():
+        t = Text(t2s(plain), style=get(base[0]) if base else "")
+        for a, b, sty in spans:
+            t.stylize(get(sty), a, b)
+        return t
+    if warm == 1:
+        w = _console()
+        for tree in ([base[0]] if base else []) + [sp[2] for sp in spans]:
+            w.print(Text("w", style=get(tree)))
+    elif warm == 2:
+        _console().print(build())
+    console = _console()
+    console.print(build())
+    enc = _LINK_ID.sub("\x1b]8;id=0;", console.file.getvalue())
+    return [s2t(enc), _outcome(lambda: [_utext(t) for t in AnsiDecoder().decode(enc)])]
+
+
 class _Segs:
     """a renderable that yields the given segments unchanged"""
 
@@ -509,6 +642,8 @@ def impl(op, arg):
             console.print(Text.assemble(*parts))
         enc = _LINK_ID.sub("\x1b]8;id=0;", console.file.getvalue())
         return [s2t(enc), _outcome(lambda: [_utext(t) for t in AnsiDecoder().decode(enc)])]
+    if op == "decode.nested":
+        return _nested(*arg)
     if op == "proxy.run":
         return _proxy_run(arg[0], arg[1])
     if op == "proxy.live":
@@ -701,6 +836,18 @@ def spec_cases(op, arg, out):
                     want[-1].append([s2t(part), sty])
             # the final "\n" segment ends the last line
         return [("spec.decode.roundtrip_ok", [want, dec[1]])]
+    if op == "decode.nested":
+        if not (len(out) == 2 and out[1][0] == 0):
+            return [("spec.decode.no_crash", [2])]
+        warm, base, plain, spans = arg
+        want = [[]]
+        for i, c in enumerate(plain):
+            if c == 10:
+                want.append([])
+                continue
+            cov = ([base[0]] if base else []) + [sp[2] for sp in spans if sp[0] <= i < sp[1]]
+            want[-1].append([[c], [combine_trees(cov)] if cov else []])
+        return [("spec.decode.roundtrip_ok", [want, out[1][1]])]
     if op == "proxy.live":
         if len(out) != len(arg[1]):
             return [("spec.decode.no_crash", [2])]
@@ -731,6 +878,10 @@ def describe(op, arg):
             return " ; ".join(("write(%r)" % t2s(o[1])) if o[0] == 0 else "flush()" for o in arg[1])
         if op in ("decode.lines", "decode.splitlines"):
             return repr(t2s(arg))
+        if op == "decode.nested":
+            warm, base, plain, spans = arg
+            return "warm=%d Text(%r, style=%r) spans %s" % (warm, t2s(plain), style_def(base[0]) if base else "",
+                                                          [(a, b, style_def(st)) for a, b, st in spans])
         if op == "decode.roundtrip":
             return "lines of (text, style) runs printed through a truecolor Console, then AnsiDecoder.decode"
     except Exception:
